@@ -315,7 +315,7 @@ class Report:
             rc = 2
         cov = {
             "evaluations": self.evaluations,
-            "distinct_nontrivial": len(self.features),
+            "distinct_nontrivial": self.distinct_override if getattr(self, "distinct_override", None) is not None else len(self.features),
             "rule": self.rule,
             "samples": self.samples or ["(no sample recorded)"],
             "counters": dict(sorted(self.counters.items())),
@@ -336,7 +336,7 @@ class Report:
             json.dump(ev, f, indent=1, default=str)
         verdict = {0: "HELD", 1: "VIOLATED", 2: "INCONCLUSIVE"}[rc]
         print("%s property=%s tier=%s seed=%d evaluations=%d distinct=%d violations=%d known=%d inconclusive=%d wall=%.1fs" %
-              (verdict, self.prop, self.tier, SEED, self.evaluations, len(self.features), nviol, len(reproduced), inconc,
+              (verdict, self.prop, self.tier, SEED, self.evaluations, cov["distinct_nontrivial"], nviol, len(reproduced), inconc,
                time.time() - self.t0))
         return rc
 
